@@ -680,8 +680,14 @@ func (s *Scanner) checkUnionInjection(stmt *ast.SetOperation, result *ScanResult
 		// Check for NULL placeholders (common in UNION injection)
 		nullCount := 0
 		for _, col := range rightSelect.Columns {
-			if ident, ok := col.(*ast.Identifier); ok {
-				if strings.ToUpper(ident.Name) == "NULL" {
+			switch c := col.(type) {
+			case *ast.Identifier:
+				if strings.ToUpper(c.Name) == "NULL" {
+					nullCount++
+				}
+			case *ast.LiteralValue:
+				// the parser represents NULL as a literal of type "null"
+				if strings.EqualFold(c.Type, "null") {
 					nullCount++
 				}
 			}
